@@ -40,6 +40,17 @@ func minimise(s *Scenario, test func(*Scenario) bool, maxTests int, deadline tim
 		c := cur.clone()
 		c.Prelude = nil
 		if !try(c) {
+			// most state leaks need only the last few earlier evaluations
+			for _, k := range []int{1, 2, 3, 4, 6, 8, 16, 32} {
+				if k >= len(cur.Prelude) || tests >= maxTests {
+					break
+				}
+				c := cur.clone()
+				c.Prelude = c.Prelude[len(c.Prelude)-k:]
+				if try(c) {
+					break
+				}
+			}
 			for chunk := (len(cur.Prelude) + 1) / 2; chunk >= 1 && tests < maxTests; chunk /= 2 {
 				for a := 0; a < len(cur.Prelude) && tests < maxTests; {
 					b := a + chunk
